@@ -94,11 +94,11 @@ def focus_fixed_sampling(wavefunction, input_dx, prop_dist,
     if not isinstance(output_samples, Iterable):
         output_samples = (output_samples, output_samples)
 
-    dia = wavefunction.shape[0] * input_dx
-    Q = Q_for_sampling(input_diameter=dia,
-                       prop_dist=prop_dist,
-                       wavelength=wavelength,
-                       output_dx=output_dx)
+    # one Q per axis: each axis has its own width, and only Q_axis * samples_axis is physical
+    Q = tuple(Q_for_sampling(input_diameter=s * input_dx,
+                             prop_dist=prop_dist,
+                             wavelength=wavelength,
+                             output_dx=output_dx) for s in wavefunction.shape)
     if shift[0] != 0 or shift[1] != 0:
         shift = (shift[0]/output_dx, shift[1]/output_dx)
 
@@ -145,11 +145,11 @@ def focus_fixed_sampling_backprop(wavefunction, input_dx, prop_dist,
     if not isinstance(output_samples, Iterable):
         output_samples = (output_samples, output_samples)
 
-    dia = output_samples[0] * input_dx
-    Q = Q_for_sampling(input_diameter=dia,
-                       prop_dist=prop_dist,
-                       wavelength=wavelength,
-                       output_dx=output_dx)
+    # one Q per axis, as in the forward routine (output_samples is the shape of the forward input)
+    Q = tuple(Q_for_sampling(input_diameter=s * input_dx,
+                             prop_dist=prop_dist,
+                             wavelength=wavelength,
+                             output_dx=output_dx) for s in output_samples)
     if shift[0] != 0 or shift[1] != 0:
         shift = (shift[0]/output_dx, shift[1]/output_dx)
 
@@ -203,14 +203,13 @@ def unfocus_fixed_sampling(wavefunction, input_dx, prop_dist,
     if not isinstance(output_samples, Iterable):
         output_samples = (output_samples, output_samples)
 
+    # one Q per axis: Q_axis = (lambda f / (width_axis * input_dx)) * output_samples_axis / input_samples_axis
     dias = [output_dx * s for s in output_samples]
-    dia = max(dias)
-    Q = Q_for_sampling(input_diameter=dia,
-                       prop_dist=prop_dist,
-                       wavelength=wavelength,
-                       output_dx=input_dx)  # not a typo
-
-    Q /= wavefunction.shape[0] / output_samples[0]
+    Q = tuple(Q_for_sampling(input_diameter=dia,
+                             prop_dist=prop_dist,
+                             wavelength=wavelength,
+                             output_dx=input_dx) / (s_in / s_out)  # not a typo
+              for dia, s_in, s_out in zip(dias, wavefunction.shape, output_samples))
 
     if shift[0] != 0 or shift[1] != 0:
         shift = (shift[0]/output_dx, shift[1]/output_dx)
@@ -229,14 +228,13 @@ def unfocus_fixed_sampling_backprop(wavefunction, input_dx, prop_dist,
     if not isinstance(output_samples, Iterable):
         output_samples = (output_samples, output_samples)
 
+    # one Q per axis: Q_axis = (lambda f / (width_axis * input_dx)) * output_samples_axis / input_samples_axis
     dias = [output_dx * s for s in output_samples]
-    dia = max(dias)
-    Q = Q_for_sampling(input_diameter=dia,
-                       prop_dist=prop_dist,
-                       wavelength=wavelength,
-                       output_dx=input_dx)  # not a typo
-
-    Q /= wavefunction.shape[0] / output_samples[0]
+    Q = tuple(Q_for_sampling(input_diameter=dia,
+                             prop_dist=prop_dist,
+                             wavelength=wavelength,
+                             output_dx=input_dx) / (s_in / s_out)  # not a typo
+              for dia, s_in, s_out in zip(dias, wavefunction.shape, output_samples))
 
     if shift[0] != 0 or shift[1] != 0:
         shift = (shift[0]/output_dx, shift[1]/output_dx)
